@@ -367,6 +367,18 @@ def drive_predicates(rec, rng, root):
         U.terms_are_like(a, b)
     except Exception:
         pass
+    # lists handed out are the caller's: emptied, then asked again (decided by the has_like_terms /
+    # get_term monitors and the relational checks that follow in the same process)
+    try:
+        t = U.get_terms(root)
+        t.clear()
+        U.get_terms(root)
+        st = U.get_sub_terms(a)
+        if isinstance(st, list):
+            st.clear()
+            U.get_sub_terms(a)
+    except Exception:
+        pass
 
 
 def run(rec, cfg):
